@@ -4,13 +4,11 @@ from props import ModuleCheck, T, bundled
 
 ORACLE_CLAUSES_C17 = ["C17_Append", "C17_Aggregate", "C17_History", "C17_StateMirror", "C17_Authority"]
 
-# emptyprov=1: provider strings that are no account address (stored as the EMPTY address; findings/oraclerandom.md R7-3:
-# such a feed makes every later genesis export unimportable - a C12 matter, so RECORD below does not set the flag)
 ORACLE_RND = T(
-    [dict(n=10, len=30, procs=6, cfg="users=2,provs=3,funds=60,maxfeeds=3,maxtimeout=3,emptyprov=1"),
-     dict(n=10, len=30, procs=6, cfg="users=3,provs=2,funds=45,maxfeeds=2,maxtimeout=2,emptyprov=1")],
-    [dict(n=60, len=40, procs=7, cfg="users=2,provs=3,funds=60,maxfeeds=3,maxtimeout=3,emptyprov=1"),
-     dict(n=60, len=40, procs=7, cfg="users=3,provs=2,funds=45,maxfeeds=2,maxtimeout=2,emptyprov=1")])
+    [dict(n=10, len=30, procs=6, cfg="users=2,provs=3,funds=60,maxfeeds=3,maxtimeout=3"),
+     dict(n=10, len=30, procs=6, cfg="users=3,provs=2,funds=45,maxfeeds=2,maxtimeout=2")],
+    [dict(n=60, len=40, procs=7, cfg="users=2,provs=3,funds=60,maxfeeds=3,maxtimeout=3"),
+     dict(n=60, len=40, procs=7, cfg="users=3,provs=2,funds=45,maxfeeds=2,maxtimeout=2")])
 # multi-message transactions (runs of one signer's messages delivered as one real transaction)
 bundled(ORACLE_RND)
 # second generator mode (round 7, negative probing): GenSpecP = accepted events on the way (answers in every payload
@@ -39,6 +37,9 @@ _SCN_CFG = "users=2,provs=2,funds=60,maxtimeout=2,price=10"
 ORACLE_SCN = [dict(file="scenarios/oracle_cover.ndjson", cfg=_SCN_CFG),
               dict(file="scenarios/oracle_cover2.ndjson", cfg=_SCN_CFG),
               dict(file="scenarios/oracle_F15.ndjson", cfg=_SCN_CFG),
+              # regression of R7-3 (fixed 8afa321): a provider string that is no address is refused; accepted, it would be
+              # stored as the empty address (drift here, refused genesis imports in C12)
+              dict(file="scenarios/oracle_emptyprov.ndjson", cfg=_SCN_CFG),
               # negative probing / unusual inputs (round 7; written by scenarios/oracle_mk_probe.py): every antecedent of
               # PROBE_REQUIRED on every run
               dict(file="scenarios/oracle_probe.ndjson", cfg="users=2,provs=2,funds=300,maxtimeout=2,price=10")]
@@ -47,7 +48,7 @@ PROBE_REQUIRED = (["m_%s_%s_%s" % (c, st, r) for c in ("start", "pause", "edit")
                    for st in ("paused", "autop", "idle", "open0", "openN", "full") for r in ("creator", "prov", "other")]
                   + ["pay_" + p for p in ("exp zeros str dupfirst dupbody extra ridlower negzero missing null false obj arr "
                                           "strbad nobody true emptyout errout badresult nohdr ridshort err400").split()]
-                  + ["pay_zero_counts", "odd_prov_ok", "odd_prov_rej", "bad_name_rej", "case_twin_ok", "unknown_name_cmd",
+                  + ["pay_zero_counts", "odd_prov_ok", "odd_prov_rej", "bad_prov_create_rej", "bad_prov_edit_rej", "bad_name_rej", "case_twin_ok", "unknown_name_cmd",
                      "cap_denom_rej", "respond_stranger", "respond_expiry_block", "respond_late", "respond_twice",
                      "complete_after_edit", "nested_path", "index_path", "create_invalid", "create_by_prov",
                      "svc_name_rej", "agg_case_rej"])
@@ -97,5 +98,6 @@ TEXT = {
              "null / boolean / object values, refused results) are required antecedents exercised by scenarios/oracle_probe.ndjson; "
              "answers without a number are judged as today's code reads them (0; true = 1; Oracle.tla AnsX). Answers that are "
              "not finite (1e999, \"Inf\", \"NaN\") are sent only under driver cfg inf=1, off in every registered check "
-             "(findings/oraclerandom.md R7-2); provider strings that become the empty address only under emptyprov=1 (R7-3)."),
+             "(findings/oraclerandom.md R7-2). Provider strings that are no address are refused since fix 8afa321 (R7-3; "
+             "regression scenarios/oracle_emptyprov.ndjson)."),
 }
